@@ -71,15 +71,20 @@ def queries(tier, kfs):
                     for bl in bl_sets(n, sm, tier):
                         for mk in masks(n, tier):
                             prof.append((n, looped, cache, bl, mk, '3.0' if (bl + (mk or 0)) % 2 else '0.7'))
-    for (n, looped, cache, bl, mk, sp) in prof:
-        hd = dict(N=n, D=2, GRID=0, BLMASK=bl, USE_MASK=0 if mk is None else 1, SPACING=sp)
+    prof = [p + (0,) for p in prof]
+    # apply_par path (blocks executed one after the other): must equal the sequential semantics
+    prof += [(4, 0, 1, 0b1001, None, '3.0', 2), (4, 0, 1, 0b0100, 0b0010, '3.0', 3), (3, 0, 1, 0, None, '3.0', 2), (5, 1, 1, 0b00001, 0b00100, '3.0', 4)]
+    if not quick:
+        prof += [(5, 0, 1, 0b00010, None, '0.7', 2), (6, 0, 0, 0b100000, 0b000100, '3.0', 3), (4, 1, 0, 0, None, '0.7', 16)]
+    for (n, looped, cache, bl, mk, sp, thr) in prof:
+        hd = dict(N=n, D=2, GRID=0, BLMASK=bl, USE_MASK=0 if mk is None else 1, SPACING=sp, THREADS=thr)
         if mk is not None:
             hd['MASKBITS'] = mk
         if looped:
             hd['LOOPED'] = 1
         ud = dict(FSV_GRID=0, FSV_N=n, FSV_D=2, FSV_CACHE=cache)
-        add('profile%d%s.c%d.bl%x.m%s.s%s' % (n, 'L' if looped else '', cache, bl, 'x' if mk is None else '%x' % mk, sp),
-            ud, hd, 3 * n + 3, dict(grid='profile_grid (real)', N=n, looped=looped, cache=cache, BL=bl, mask=mk, spacing=sp))
+        add('profile%d%s.c%d.bl%x.m%s.s%s.t%d' % (n, 'L' if looped else '', cache, bl, 'x' if mk is None else '%x' % mk, sp, thr),
+            ud, hd, 3 * n + 3, dict(grid='profile_grid (real)', N=n, looped=looped, cache=cache, BL=bl, mask=mk, spacing=sp, threads=thr))
     # table grids dumped from the real raster / mesh classes
     tabs = ['raster_rook_2x2_fixed', 'raster_rook_2x3_hloop', 'raster_queen_2x3_fixed', 'raster_bishop_2x3_fixed', 'mesh_quad4']
     if not quick:
@@ -89,13 +94,13 @@ def queries(tier, kfs):
     for t in tabs:
         n, d = table_info(t)
         sm = status_mask(t)
-        combos = [(sm, None), (1 << (n // 2), 1 << (n - 1))] if quick else \
-            [(bl, mk) for bl in bl_sets(n, sm, tier) for mk in masks(n, tier)[:4]]
-        for bl, mk in combos:
-            hd = dict(N=n, D=d, GRID=1, BLMASK=bl, USE_MASK=0 if mk is None else 1, TABLE='"%s.h"' % t)
+        combos = [(sm, None, 0), (1 << (n // 2), 1 << (n - 1), 0), (1 << (n - 1), 1, 2)] if quick else \
+            [(bl, mk, (bl + (mk or 0)) % 3) for bl in bl_sets(n, sm, tier) for mk in masks(n, tier)[:4]]
+        for bl, mk, thr in combos:
+            hd = dict(N=n, D=d, GRID=1, BLMASK=bl, USE_MASK=0 if mk is None else 1, TABLE='"%s.h"' % t, THREADS=thr)
             if mk is not None:
                 hd['MASKBITS'] = mk
             ud = dict(FSV_GRID=1, FSV_N=n, FSV_D=d, FSV_CACHE=1)
-            add('%s.bl%x.m%s' % (t, bl, 'x' if mk is None else '%x' % mk), ud, hd, n * (d + 1) + 3,
-                dict(grid='table:' + t, N=n, D=d, BL=bl, mask=mk), timeout=900 if quick else 3600)
+            add('%s.bl%x.m%s.t%d' % (t, bl, 'x' if mk is None else '%x' % mk, thr), ud, hd, n * (d + 1) + 3,
+                dict(grid='table:' + t, N=n, D=d, BL=bl, mask=mk, threads=thr), timeout=900 if quick else 3600)
     return qs
